@@ -208,10 +208,18 @@ impl<T> Store<T> {
 }
 
 impl Store {
-    pub(super) fn last_dependent_access(&self, operation: Operation) -> Option<&Access> {
+    /// Returns the last access `operation`, about to be performed by a thread
+    /// whose DPOR clock is `version`, is dependent with.
+    pub(super) fn last_dependent_access(
+        &self,
+        operation: Operation,
+        version: &VersionVec,
+    ) -> Option<&Access> {
         match &self.entries[operation.obj.index] {
             Entry::Arc(entry) => entry.last_dependent_access(operation.action.into()),
-            Entry::Atomic(entry) => entry.last_dependent_access(operation.action.into()),
+            Entry::Atomic(entry) => {
+                entry.last_dependent_access(operation.action.into(), version)
+            }
             Entry::Mutex(entry) => entry.last_dependent_access(),
             Entry::Condvar(entry) => entry.last_dependent_access(),
             Entry::Notify(entry) => entry.last_dependent_access(),
@@ -224,16 +232,33 @@ impl Store {
         }
     }
 
+    /// Joins the DPOR clocks of every access `operation` is dependent with
+    /// into `version`.
+    pub(super) fn join_dependent_accesses(&self, operation: Operation, version: &mut VersionVec) {
+        match &self.entries[operation.obj.index] {
+            Entry::Atomic(entry) => {
+                entry.join_dependent_accesses(operation.action.into(), version)
+            }
+            _ => {
+                if let Some(access) = self.last_dependent_access(operation, version) {
+                    let access = *access.version();
+                    version.join(&access);
+                }
+            }
+        }
+    }
+
     pub(super) fn set_last_access(
         &mut self,
         operation: Operation,
+        thread_id: rt::thread::Id,
         path_id: usize,
         dpor_vv: &VersionVec,
     ) {
         match &mut self.entries[operation.obj.index] {
             Entry::Arc(entry) => entry.set_last_access(operation.action.into(), path_id, dpor_vv),
             Entry::Atomic(entry) => {
-                entry.set_last_access(operation.action.into(), path_id, dpor_vv)
+                entry.set_last_access(operation.action.into(), thread_id, path_id, dpor_vv)
             }
             Entry::Mutex(entry) => entry.set_last_access(path_id, dpor_vv),
             Entry::Condvar(entry) => entry.set_last_access(path_id, dpor_vv),
